@@ -56,7 +56,7 @@ def sev(start, dur, vel, tick, total, n, pre=None, k=None):
 
 class C20(Property):
     id = "C20"
-    lean_module = "RosuModel.Props.C20"
+    lean_module = "RosuModel.Props.C20Exact"   # imports Props/C20.lean; both in namespace Rosu.C20
     namespace = "Rosu.C20"
     design_ref = "5.20"
     level_text = (
@@ -66,8 +66,20 @@ class C20(Property):
         "iterator equals the eager list head :: spans(ticks in chronological order ++ repeat unless last) ++ [last tick, tail] (stream_shape), "
         "with the event-count formula, the closed forms of head/repeat/last tick/tail, identical tick distances on every span, mirrored tick "
         "times on odd spans, the min-distance and length guards on every tick, no ticks but all repeats when the tick distance is not positive, "
-        "independence from the previous buffer contents incl. sequences of half-consumed iterators on one buffer. Under explicit ordered-field "
-        "laws (satisfied by Rat): ticks at exact multiples (i+1)*tickDist, strict min-distance, chronological order inside a span, and a fuel bound. "
+        "independence from the previous buffer contents incl. sequences of half-consumed iterators on one buffer. EXACT ARITHMETIC (Props/C20Exact.lean): under the "
+        "one law structure ExactNum (Lemmas/ExactNum.lean = ExactScalar of Lemmas/ExactArith.lean - the Scalar operations are those of a linearly ordered field "
+        "through an injective map - plus 'no NaN' and exact i32->f64; instances on core Rat and on the reals: laws_rat, laws_real), about the model functions the "
+        "driver runs (Params.new/Iter.new, the tick loop, collect/collectAcc, runUse): new_exact (len = min(100000,total) >= 0, tick_dist = min(len,max(0,td)), "
+        "min_dist = 10*velocity); spanTickDists_exact / ticks_at_multiples_exact / stream_ticks_exact (the k-th tick distance is (k+1)*tick_dist, the tick count is "
+        "the first k whose multiple fails a guard - TickCount, unique -, every span's j-th tick in time has progress (k+1)*tick_dist/len with k=j on forward and "
+        "k=c-1-j on reversed spans and time start+s*dur+progress*dur resp. +(1-progress)*dur); ticks_respect_min_distance_exact (d <= len and, strictly, "
+        "10*velocity < len - d); closed forms headEvent_exact, repeatEvent_exact (start+(s+1)*dur), lastTickEvent_exact (max(start+n*dur/2, end-36), end = tail time), "
+        "tailEvent_exact (start+n*dur); ticks_fuel_suffices_exact / ticks_fuel_floor / stream_exists_exact / runUse_exact (for EVERY input: any fuel >= m with "
+        "len < m*tick_dist - e.g. floor(len/tick_dist)+1 - makes collect and the driver's runUse return the eager list, never fuel-exhausted); "
+        "ticks_chronological_exact, stream_chronological_exact and stream_ordering_exact (for n >= 1, len > 0, span duration > 0, velocity >= 0: the collected list IS "
+        "head :: (per span: c ticks of that span in strictly increasing time ++ repeat unless last) ++ [last tick, tail]; without the legacy last tick it is "
+        "strictly increasing in time head < span 0 < ... < span n-1 < tail; head < last tick <= tail). The legacy last tick is NOT always after the final span's "
+        "ticks (proved example). None of this is proved for IEEE f64 (see partial_theorems). The older OrderedFieldLaws versions (Props/C20.lean part 2) are kept. "
         "Model tied to the code on every run: real SliderEventsIter vs model, bit-for-bit on all event fields and on the buffer left behind; an "
         "eager Rust reference written from the property text judges the implementation.")
     technique = "Lean 4 proof (induction over spans / stack discipline) + bit-exact differential correspondence on the public iterator"
@@ -78,19 +90,33 @@ class C20(Property):
         "same_ticks_every_span", "ticks_mirrored_on_odd_spans", "ticks_respect_min_distance",
         "ticks_at_multiples", "ticks_respect_min_distance_strict", "ticks_chronological", "ticks_fuel_suffices", "last_tick_formula",
         "rat_laws",
+        # Props/C20Exact.lean: the law-dependent half under the single law structure ExactNum
+        "new_exact", "new_tickDist_range", "tickDists_exact", "tickDists_terminates", "TickCount.unique", "spanTickDists_exact",
+        "ticks_fuel_suffices_exact", "ticks_fuel_floor", "spanStart_exact", "tickEvent_exact", "repeatEvent_exact", "headEvent_exact",
+        "tailEvent_exact", "lastTickEvent_exact", "ticks_at_multiples_exact", "ticks_respect_min_distance_exact", "tickDists_facts",
+        "ticks_chronological_exact", "spanEvents_chrono", "spansFrom_chrono", "stream_chronological_exact", "stream_exists_exact",
+        "runUse_exact", "stream_ordering_exact", "stream_ticks_exact", "laws_rat", "laws_real",
     ]
     partial_theorems = {
-        "ticks_at_multiples": "law-dependent: holds in exact (ordered-field) arithmetic; in IEEE f64 the distance is the (i+1)-fold rounded sum "
-                              "(checked on the implementation to lie within (i+1) ulp of the exact multiple, deviation reported)",
-        "ticks_respect_min_distance_strict": "law-dependent (needs totality of the order, false for NaN); the structural ticks_respect_min_distance "
-                                             "states the guard exactly as the code tests it and holds for IEEE",
-        "ticks_chronological": "law-dependent: strict order in exact arithmetic for positive tick distance, length and span duration; IEEE rounding can "
-                               "make neighbouring tick times equal (the implementation-level oracle checks non-decreasing)",
-        "last_tick_formula": "law-dependent: (start + (n-1)*dur) + dur = start + n*dur needs associativity/distributivity; in IEEE the two differ by rounding "
-                             "(the oracle compares the implementation with the closed form at 4 ulp of the operand magnitude; the structural last_tick_form "
-                             "states the expression exactly as evaluated)",
-        "ticks_fuel_suffices": "law-dependent: the while loop terminates within n turns when len < n*tickDist in exact arithmetic; in IEEE the loop can "
-                               "stall when d + tickDist rounds to d (needs >= 2^52 turns, see Model/SliderEvents.lean)",
+        "ticks_at_multiples / ticks_at_multiples_exact / stream_ticks_exact":
+            "exact arithmetic only (ExactNum: instances Rat, reals), about spanTickDists / the events collect returns; in IEEE f64 the k-th distance is the "
+            "k-fold ROUNDED sum ((t+t)+t)+... (checked on the implementation to lie within (k+1) ulp of the exact multiple, deviation reported); not proved for IEEE",
+        "ticks_respect_min_distance_strict / ticks_respect_min_distance_exact":
+            "exact arithmetic only (needs a total order, false with NaN); the structural ticks_respect_min_distance states both guards exactly as the code tests "
+            "them and holds for IEEE",
+        "ticks_chronological / ticks_chronological_exact / stream_chronological_exact / stream_ordering_exact":
+            "exact arithmetic only, for n >= 1, len > 0, span duration > 0, velocity >= 0 (with a negative velocity a tick may sit exactly on the span end): strict "
+            "order inside each span and across the stream without the last tick, head < last tick <= tail. IEEE rounding can make neighbouring tick times equal "
+            "(the implementation-level oracle checks non-decreasing). The property's wording does not order the legacy last tick against the final span's ticks and "
+            "no such order holds (proved example: last tick at 25 ms listed after ticks at 20 and 40 ms)",
+        "last_tick_formula / lastTickEvent_exact / tailEvent_exact / repeatEvent_exact":
+            "exact arithmetic only: (start + (n-1)*dur) + dur = start + n*dur needs associativity/distributivity; in IEEE the two differ by rounding (the oracle "
+            "compares the implementation with the closed form at 4 ulp of the operand magnitude; the structural last_tick_form states the expression exactly as evaluated)",
+        "ticks_fuel_suffices / ticks_fuel_suffices_exact / ticks_fuel_floor / stream_exists_exact / runUse_exact":
+            "exact arithmetic only, there for every input: fuel m with len < m*tick_dist (floor(len/tick_dist)+1 in a field with a floor, e.g. Rat, reals) suffices for "
+            "the tick loop, collect and runUse; the driver's constant 10^7 therefore suffices whenever len/tick_dist < 10^7 and n*(len/tick_dist+1)+2 < 10^8. In IEEE "
+            "the loop can stall when d + tickDist rounds to d (needs >= 2^52 turns, see Model/SliderEvents.lean); the model then reports fuel-exhausted "
+            "(stream_fuel_exhausted), never a made-up stream",
     }
     trusted_base = [
         "Lean 4.33.0 kernel",
@@ -104,7 +130,7 @@ class C20(Property):
         "domain: span count >= 1 (property) — span count 0 is modelled and compared but not judged; negative span counts make the real code loop ~2^32 times / overflow and are never sent",
         "domain: length >= 0 or NaN — a negative total distance makes SliderEventsIter::new panic in f64::clamp (min > max); the model reproduces the panic and it is compared, not judged",
         "generators keep len/tickDist <= 1e5 per span and <= 3e5 events per request: with a tiny positive tick distance the real while loop runs len/tickDist turns (unbounded in practice) and cannot be interrupted in-process",
-        "law-dependent theorems hold in exact arithmetic only (DESIGN.md 3.3); the implementation-level oracle computes the reference with the legacy expressions (bit-for-bit) and reports the deviation from the exact multiples and from the alternative closed forms (4 ulp at operand magnitude)",
+        "law-dependent theorems hold in exact arithmetic only (DESIGN.md 3.3; hypothesis structure ExactNum, which IEEE f64 does not satisfy: rounding, NaN, overflow); the implementation-level oracle computes the reference with the legacy expressions (bit-for-bit) and reports the deviation from the exact multiples and from the alternative closed forms (4 ulp at operand magnitude)",
     ]
     nontrivial_rule = ("grid span counts 0..6 x tick/length ratios (0, negative, >len, NaN, inf, fractions) x lengths (incl. > MAX_LEN, 0, inf, NaN, negative) x "
                        "velocities (incl. 0, NaN) x durations x starts; random playable parameters; hostile bit patterns; sequences of 2..5 iterators on one "
